@@ -109,9 +109,10 @@ def r1(ctx):
     for s2 in statements(ino.node):
         if isinstance(s2, ast.Assign) and isinstance(s2.value, ast.Call) and isinstance(s2.targets[0], ast.Name):
             cal = ctx.rs.resolve_call(ino, s2.value)
-            if cal.kind == "func" and cal.func.fq == "utils.unpack" and s2.value.args and isinstance(s2.value.args[0], ast.Call) and ctx.rs.resolve_call(ino, s2.value.args[0]).fq == "utils.xor":
+            a0 = origin(ino.node, s2.value.args[0]) if s2.value.args else None
+            if cal.kind == "func" and cal.func.fq == "utils.unpack" and isinstance(a0, ast.Call) and ctx.rs.resolve_call(ino, a0).fq == "utils.xor":
                 dvar = s2.targets[0].id
-                x = s2.value.args[0]
+                x = a0
                 # both XOR operands are the two consecutive 4-byte reads of this iteration
                 ops = [origin(ino.node, a) for a in x.args]
                 two_reads = len(ops) == 2 and all(isinstance(o, ast.Call) and isinstance(o.func, ast.Attribute) and o.func.attr == "read" and _c(o.args[0]) == 4 for o in ops) and ops[0] is not ops[1]
@@ -134,8 +135,9 @@ def r1(ctx):
     posv = [dotted(s2.targets[0]) for s2 in statements(rn.node) if isinstance(s2, ast.Assign) and src(s2.value) == "self.fh.tell()"]
     posv = posv[0] if posv else "pos"
     for n in body_walk(rn.node):
-        if isinstance(n, ast.Compare) and isinstance(n.ops[0], ast.Lt) and dotted(n.left) == posv:
-            ok1 = sympoly(n.comparators[0]) == H + SymPoly.const(4)
+        for l, op, r in compare_parts(n):
+            if isinstance(op, ast.Lt) and dotted(l) == posv:
+                ok1 = ok1 or sympoly(r) == H + SymPoly.const(4)
     for s2 in statements(rn.node):
         if isinstance(s2, ast.Assign) and sympoly(s2.value) == SymPoly.atom(posv) - H:
             ok2 = True
@@ -274,9 +276,10 @@ def r4(ctx):
         adds = [n for n in ast.walk(loops[0].iter) if isinstance(n, ast.BinOp) and isinstance(n.op, ast.Add)]
         if adds:
             from csverif.q import reaching_origins
+            from csverif.q import inline as _inl
             srcs = []
             for side in (adds[0].left, adds[0].right):
                 for o in reaching_origins(ctx, f, side, loops[0]):
-                    srcs.append(src(o))
+                    srcs.append(src(_inl(f.node, o)) if isinstance(o, ast.expr) else src(o))
             ok = any("iter_nonce_offsets" in x for x in srcs) and any("iter_find_needle" in x for x in srcs)
     ctx.ob("R4", "AGREE", f, "candidates = marker + size-relation offsets", ok, "both candidate sources are tried" if ok else "candidate loop does not range over both sources")
